@@ -34,36 +34,60 @@ THEOREMS = [_T + n for n in [
     "C19_hashdict_sound", "C19_hashdict_needs_contract", "C19_encoder_on_hash_table",
     "C19_pyeq_canonical", "C19_pyeq_equivalence", "C19_pyhash_respects_eq", "C19_pyhash_reads_only"]]
 LEVEL_TEXT = ("Lean theorems over a model of the encoder as the Python dict it is (insertion-ordered association list, "
-              "later equal key overwrites): for duplicate-free vocabularies encode = i iff the tag is the i-th vocabulary "
+              "later equal key overwrites; proved equal to a hash table that compares hashes first whenever ==-equal keys "
+              "hash equally): for duplicate-free vocabularies encode = i iff the tag is the i-th vocabulary "
               "tag, = none iff it is absent, equals the linear search for the first equal element, decode/encode are "
-              "inverse; classification = encoding of the first in-vocabulary tag; multilabel = indicator vector; "
+              "inverse, decode follows the list index rule for every Python integer; classification = encoding of the "
+              "first in-vocabulary tag; multilabel = indicator vector; "
               "prediction = stored score of the last prediction of each vocabulary tag (0 if none); deleting "
-              "out-of-vocabulary tags changes no result; modelled == is structural equality and every hash key is a "
-              "function of compared fields. Model tied to the code by exhaustive small vocabularies x tag lists on the "
-              "real dict-based encoder (exact), all pairs of one-field perturbations of the eight hashable classes "
-              "(== against the model, a == b => hash(a) == hash(b) on the real objects) and regenerated field tables.")
-LEVEL_NOTE = ("Trusted: Lean kernel; CPython dict/tuple/str/float/UUID hashing and equality; pydantic BaseModel.__eq__ is "
+              "out-of-vocabulary tags changes no result; the same three functions over any Encoder (the Protocol: "
+              "many-to-one tables, numpy's index rule, IndexError iff an index is outside [-n, n)) with SimpleEncoder "
+              "proved an instance; find_tag / find_feature (term before label, first match, default, ValueError) and the "
+              "deprecated key= / name= construction path (term wins, term_from_key injective, key-built tags equal and "
+              "hash as their term-built twins); modelled == is structural equality, Python == on raw values (1 == 1.0, "
+              "0.0 == -0.0) is equality of canonical trees and an equivalence, and for any primitive hash functions "
+              "obeying the numeric hash invariant and any table of hashed fields, == implies equal hashes. Model tied to "
+              "the code by exhaustive small vocabularies x tag lists on the real dict-based encoder (exact), every small "
+              "user-defined encoder table x tag list, all pairs of one-field perturbations of the eight hashable classes "
+              "(== against the model, a == b => hash(a) == hash(b) on the real objects, also for objects holding unvalidated "
+              "ints / signed zeros), regenerated field tables, and the hand-written __hash__ methods run on opaque "
+              "field values (what they hash, for all values) with the hash theorem instantiated on the extracted table.")
+LEVEL_NOTE = ("Trusted: Lean kernel; CPython dict/tuple/str/float/UUID hashing and equality (probing order of dict "
+              "abstracted: every entry with the probe's hash is compared); pydantic BaseModel.__eq__ is "
               "observed, not modelled from source; numpy float32 store (its value is computed by the harness with "
-              "struct and handed to the model). Unmodelled: vocabularies with repeated tags (outside the quantifier; "
-              "the model covers them, the check does not compare them), negative decode indices, NaN feature values. "
+              "struct and handed to the model) and numpy / list index rule (monitored as contracts). Unmodelled: "
+              "vocabularies with repeated tags (outside the quantifier; "
+              "the model covers them, the check does not compare them), NaN feature values (PyVal floats are finite), "
+              "hash traces cannot see id()/type() of a field value (identity dependence is observed on two instances). "
               "Model tied to the code by regenerated obligations and generator-bounded correspondence.")
-TECHNIQUE = ("Lean 4 proof over model (dict as association list, fill loops); field tables regenerated by "
-             "introspection and one-field perturbation; exhaustive small-scope correspondence on the real encoder; "
-             "eq/hash monitor on the real classes")
+TECHNIQUE = ("Lean 4 proof over model (dict as association list = hash table under the contract, fill loops over any "
+             "encoder with numpy's index rule, find_tag, key= path, raw Python values and parametric hashes); field tables "
+             "regenerated by introspection and one-field perturbation; __hash__ methods executed on opaque leaves (tie 1b) "
+             "and the hash theorem instantiated on the extracted table; exhaustive small-scope correspondence on the real "
+             "encoder and on user-defined encoders; eq/hash monitor on the real classes; purity / list-vs-tuple / reuse "
+             "probes on every call")
 RULE = ("exhaustive vocabularies (<= 4 distinct tags) x tag / predicted-tag lists over an adversarial pool (terms sharing "
-        "name or label, optional-field and extra-field variants, empty values), random longer ones, all ordered pairs of "
-        "one-field perturbations per hashable class; non-trivial = some tag was encoded / the vector is non-zero / the "
-        "pair compares equal or differs in exactly one field; distinct = distinct (operation, input)")
+        "name or label, optional-field and extra-field variants, empty values, case / blank / Unicode-composition variants "
+        "of values), random longer ones, every encoder table of 3 tags into {skip, 0..K-1} (K <= 2) x tag lists, all "
+        "ordered pairs of one-field perturbations per hashable class, raw int/float/signed-zero variants reached by "
+        "model_copy(update) / setattr / model_construct; non-trivial = some tag was encoded / the vector is non-zero / the "
+        "pair compares equal or differs in exactly one field / a tag was found; distinct = distinct (operation, input)")
 TRUSTED = ["CPython dict, tuple, str, float and UUID hashing/equality",
            "pydantic-core construction of the data objects (observed through __dict__ / __pydantic_extra__)",
-           "numpy float32 assignment (value recomputed with struct.pack('f') and monitored as a contract)"]
+           "numpy float32 assignment (value recomputed with struct.pack('f') and monitored as a contract)",
+           "numpy / list / tuple index rule (normIdx; monitored as a contract on the libraries themselves)",
+           "CPython numeric hash invariant hash(n) == hash(float(n)) (hypothesis of C19_pyhash_respects_eq; monitored)"]
 ASSUMPTIONS = ["the walk of an object (class name, declared fields in order, extra fields) captures everything "
                "pydantic's __eq__ compares (no private attributes in soundevent.data: monitored by the table obligation)",
-               "string / UUID hashes of the distinct perturbation values differ (2^-64 collision probability)"]
+               "string / UUID hashes of the distinct perturbation values differ (2^-64 collision probability)",
+               "a __hash__ that runs on opaque leaves (no ==, bool, str, len, ordering of a field value) treats real "
+               "field values the same way (no branching on id()/type(), which a leaf cannot intercept)"]
 NOT_COMPARED = ["vocabularies with repeated tags (the property quantifies over distinct tags; dict keeps the last index)",
-                "prediction vectors when one vocabulary tag is predicted with two different scores: only "
+                "prediction vectors when one vocabulary tag (one index) is predicted with two different scores: only "
                 "`holdsPrediction` (entry is one of that tag's scores) is required there",
-                "error messages; hash values themselves (only their equality)"]
+                "encoder indices outside [0, n) and decode outside [0, n): compared (numpy / list index rule) but not fixed "
+                "by the property - a disagreement is a broken correspondence, not by itself a violation",
+                "error messages; hash values themselves (only their equality); dtype of the multilabel vector"]
 
 # ------------------------------------------------------------------ descriptors <-> real objects
 TERM_FIELDS = ["label", "definition", "name", "uri", "type_of_term", "comment", "see", "subproperty_of",
@@ -203,7 +227,10 @@ T6 = term_desc("species", "dwc:species", definition="")           # falsy defini
 CORE = [{"term": T0, "value": "dog"}, {"term": T1, "value": "dog"}, {"term": T2, "value": "dog"},
         {"term": T0, "value": "cat"}, {"term": T3, "value": "dog"}]
 POOL = CORE + [{"term": T4, "value": "dog"}, {"term": T5, "value": ""}, {"term": T5, "value": "dog"},
-               {"term": T0, "value": ""}, {"term": T6, "value": "dog"}]
+               {"term": T0, "value": ""}, {"term": T6, "value": "dog"},
+               # review: values that a "normalising" key would identify (case, blanks, Unicode composition)
+               {"term": T0, "value": "Dog"}, {"term": T0, "value": "dog "},
+               {"term": T0, "value": "caf\u00e9"}, {"term": T0, "value": "cafe\u0301"}]
 SCORES = [0.0, 1.0, 0.25, 0.1, 1 / 3, 2.0 ** -30, 1 - 2.0 ** -53, 5e-324, 0.7]
 
 
@@ -1455,3 +1482,5 @@ def search(ctx, failures):
     plists = list(_lists(items, 2))
     ctx.run_cases(OPS["prediction"], ({"vocab": v, "preds": p} for v in vocs for p in rng.sample(plists, 30)))
     ctx.run_cases(OPS["eq_hash"], _eq_hash_cases(ctx))
+    for st in (_stage_generic, _stage_find, _stage_init, _stage_raw):
+        ctx.stage("search:" + st.__name__, st, ctx)
